@@ -10,6 +10,7 @@ import (
 	"math/rand"
 	"os"
 	"path/filepath"
+	"reflect"
 	"time"
 
 	"chainsim/simdb"
@@ -84,7 +85,15 @@ func buildEvent(o EvOp) eventsdb.Event {
 	case 10:
 		return &eventsdb.UpdatedBlockRewardEvent{Value: o.Amt, ValueLockedStakeRewards: o.Amt + "0"}
 	default:
-		return &eventsdb.UpdateCommissionsEvent{Coin: o.Coin, Send: o.Amt, PayloadByte: "1", FailedTx: o.Amt}
+		// every price line gets its own value: a line stored or loaded under another line's name shows
+		ev := &eventsdb.UpdateCommissionsEvent{Coin: o.Coin, Send: o.Amt, PayloadByte: "1", FailedTx: o.Amt}
+		rv := reflect.ValueOf(ev).Elem()
+		for i := 0; i < rv.NumField(); i++ {
+			if f := rv.Field(i); f.Kind() == reflect.String && f.String() == "" {
+				f.SetString(fmt.Sprintf("%s%03d", o.Amt, i))
+			}
+		}
+		return ev
 	}
 }
 
@@ -101,10 +110,10 @@ func evJSON(evs eventsdb.Events) []byte {
 
 // evResult is the outcome of one scenario.
 type evResult struct {
-	Sig, Detail string
+	Sig, Detail                               string
 	Commits, Events, Restarts, Crashes, Loads int
-	MaxKeys, MaxAddrs int
-	Classes map[string]bool
+	MaxKeys, MaxAddrs                         int
+	Classes                                   map[string]bool
 }
 
 // RunEvScenario executes the operations and returns the first violation.
@@ -440,10 +449,10 @@ func c24Replay(file string, verbose bool) int {
 
 func init() {
 	register(&PropSpec{ID: "C24", Level: "exploration",
-		Rule: "the real events store over the simulated disk; seeded operation lists: add events of all 12 kinds with addresses / validator keys drawn from pools of 1..20000 (one run per batch walks through 70000 distinct keys and addresses), commit at increasing heights, restart the store object, die before the k-th write of a commit and replay the same batch after restart, load earlier heights; oracle: every load (right after commit, after restart, after crash replay, later, final sweep with a fresh store) returns exactly the committed list; distinct non-trivial case = distinct event kind / fault class / table-size class exercised",
-		Worker: c24Worker,
-		Replay: c24Replay,
+		Rule:         "the real events store over the simulated disk; seeded operation lists: add events of all 12 kinds with addresses / validator keys drawn from pools of 1..20000 (one run per batch walks through 70000 distinct keys and addresses), commit at increasing heights, restart the store object, die before the k-th write of a commit and replay the same batch after restart, load earlier heights; oracle: every load (right after commit, after restart, after crash replay, later, final sweep with a fresh store) returns exactly the committed list; distinct non-trivial case = distinct event kind / fault class / table-size class exercised",
+		Worker:       c24Worker,
+		Replay:       c24Replay,
 		ExpectProbes: []string{"c24_loads_compared"},
-		Assumptions: []string{"in-chain agreement of stored events between restarted / crashed / reference nodes is decided by C09 and C10 (DiskStateDiff compares LoadEvents of both disks)"},
+		Assumptions:  []string{"in-chain agreement of stored events between restarted / crashed / reference nodes is decided by C09 and C10 (DiskStateDiff compares LoadEvents of both disks)"},
 	})
 }
